@@ -4,6 +4,9 @@
    disjoint() on all 1-, 2- and 3-tuples of simplices of every complex on at most 3 points. *)
 From Coq Require Import String ZArith Bool Arith List.
 From SV Require Import Names Rep Complex Homology Filtration Gen World Small Sweeps NamesFacts RepInv Shapes Incidence StarOrder Duality VInv AwbSpec VSets Lookup ClosureCount.
+From SV Require Import ClosureCount StarOrder SortedViews.
+Import ListNotations.
+
 
 Theorem C04_closure_star_lookup_upto4_partial : forall c, In c complexes4 -> chk_closure_star (build c) = true.
 Proof. exact closure_star_upto4. Qed.
@@ -78,3 +81,27 @@ Theorem C04_lookup_by_basis_exact :
   end.
 Proof. exact lookup_by_basis_exact. Qed.
 Print Assumptions C04_lookup_by_basis_exact.
+
+(* EVERY HISTORY: closureOf is sorted by order -- ascending, descending with reverse=True -- with or without s *)
+Theorem C04_closure_sorted_by_order :
+  forall r s rev excl L, sinv r -> closureOf r s rev excl = Ok L ->
+  if rev then ndesc (map (ord r) L) else nasc (map (ord r) L).
+Proof. exact closureOf_sorted. Qed.
+Print Assumptions C04_closure_sorted_by_order.
+(* exclude_self drops s and nothing else, at the end where it stands *)
+Theorem C04_closure_exclude_self :
+  forall r s L1 L2, closureOf r s false false = Ok L1 -> closureOf r s true false = Ok L2 ->
+  exists M1 M2, closureOf r s false true = Ok M1 /\ closureOf r s true true = Ok M2 /\ L1 = M1 ++ [s] /\ L2 = s :: M2.
+Proof. exact closureOf_exclude_self. Qed.
+Print Assumptions C04_closure_exclude_self.
+(* partOf: the four variants list the same simplices (recorded with their orders) ascending / descending, with s
+   in front / at the end or left out; everything but s has an order strictly above s's *)
+Theorem C04_star_variants_sorted :
+  forall r s k j, sinv r -> assoc s (r_simp r) = Some (k, j) ->
+  exists A D : list (nat * name),
+    partOf r s false true = Ok (map snd A) /\ partOf r s false false = Ok (s :: map snd A) /\
+    partOf r s true true = Ok (map snd D) /\ partOf r s true false = Ok (map snd D ++ [s]) /\
+    asc A /\ desc D /\ (forall q, In q A <-> In q D) /\
+    (forall o c, In (o, c) A -> k < o /\ exists jc, assoc c (r_simp r) = Some (o, jc)).
+Proof. exact partOf_variants. Qed.
+Print Assumptions C04_star_variants_sorted.
